@@ -149,7 +149,8 @@ func (j *cacheJanitor[MetadataT]) cleanExpiredEntries() {
 	}
 
 	endCacheSize := j.cacheFns.getCacheSize()
-	metrics.Global.Cache.BytesCached.Set(endCacheSize)
+	// bytes_cached is kept in step by every add and removal; setting it here from a size read a
+	// moment ago would wipe out the share of any store or delete that completed in between.
 	metrics.Global.Cache.BytesCleaned.Add(startCacheSize - endCacheSize)
 
 	slog.Info("Cache cleanup complete", "new_size", endCacheSize)
@@ -222,7 +223,8 @@ func (j *cacheJanitor[MetadataT]) evict(maxCacheBytes int64) {
 	}
 
 	endCacheSize := j.cacheFns.getCacheSize()
-	metrics.Global.Cache.BytesCached.Set(endCacheSize)
+	// bytes_cached is kept in step by every add and removal; setting it here from a size read a
+	// moment ago would wipe out the share of any store or delete that completed in between.
 	metrics.Global.Cache.BytesCleaned.Add(startCacheSize - endCacheSize)
 
 	slog.Info("Cache eviction complete", "evicted_entries", evictions, "new_size", endCacheSize)
